@@ -10,9 +10,17 @@
      exactly one leave, join before leave; nothing for failed attempts.
    On the faithful model (and on the implementation, see the known findings) the ORDER part and
    the "exactly one join" part for the server-side path are false: C07_order_refuted,
-   C07_missing_join_refuted.  What is proved, for ALL schedules (timeouts, failures included): *)
+   C07_missing_join_refuted.  What is proved:
+   - join side, for ALL schedules (timeouts, failures included);
+   - leave side, for every schedule without the 5 s wait-gate timeout (suffix _partial = exactly
+     that exclusion; with the timeout an established subscription can lose its context without
+     teardown, finding C05/C08-genstamp-after-gate-timeout): exactly one leave, after the commit
+     and after the removal of the context, for every established join/leave subscription that
+     ended, none otherwise; and the leave comes after the join under the explicit hypothesis that
+     excludes the recorded [leave, join] window (the context is not deleted between
+     commitSubscription and PublishJoin).  Proofs/SubEnds.v. *)
 From Coq Require Import List NArith ZArith Bool.
-From Cfg Require Import Model.SubLifecycle Proofs.SubJoin.
+From Cfg Require Import Model.SubLifecycle Proofs.SubJoin Proofs.SubEnds.
 Import ListNotations.
 Open Scope N_scope.
 
@@ -42,6 +50,53 @@ Theorem C07_join_emitted_partial :
     In (EvJoin t c g) (trace s) \/ In (EvJoinSkipped t c g) (trace s).
 Proof. exact settled_join_or_skipped. Qed.
 Print Assumptions C07_join_emitted_partial.
+
+(* ---- leave side, schedules without the wait-gate timeout ---- *)
+(* [proj g tr] = the events of generation g among EvCommit, EvDelete (ghost: the unsubscribe /
+   close removed the committed context from c.channels), EvLeave, EvUnsubCb / EvUnsubSkipped;
+   [lv c g jl] = [EvLeave c g] if jl else []. *)
+
+(* A leave is only published for a generation committed with join/leave, after the commit and
+   after the removal of its context, and at most once. *)
+Theorem C07_leave_once_after_commit_and_delete_partial :
+  forall sched s c g a b,
+    no_timeout sched = true -> exec sched init = Some s ->
+    trace s = a ++ EvLeave c g :: b ->
+    (exists t0, In (EvCommit t0 c g true) a) /\ In (EvDelete c g) a /\
+    ~ In (EvLeave c g) a /\ ~ In (EvLeave c g) b.
+Proof. exact leave_after_delete. Qed.
+Print Assumptions C07_leave_once_after_commit_and_delete_partial.
+
+(* At rest: an established subscription whose context is no longer in c.channels has exactly one
+   leave if it has join/leave (none otherwise), between the delete and the unsubscribe occasion. *)
+Theorem C07_exactly_one_leave_per_ended_subscription_partial :
+  forall sched s t0 c g jl,
+    no_timeout sched = true -> exec sched init = Some s -> settled s ->
+    In (EvCommit t0 c g jl) (trace s) ->
+    (forall x, lookup c (chans s) = Some x -> c_gen x <> g) ->
+    exists e, (e = EvUnsubCb c g \/ e = EvUnsubSkipped c g) /\
+              proj g (trace s) = [EvCommit t0 c g jl; EvDelete c g] ++ lv c g jl ++ [e].
+Proof. exact ended_subscription_word. Qed.
+Print Assumptions C07_exactly_one_leave_per_ended_subscription_partial.
+
+(* No leave for a generation that never committed (failed / rolled-back attempts). *)
+Theorem C07_no_leave_without_commit_partial :
+  forall sched s g,
+    no_timeout sched = true -> exec sched init = Some s ->
+    (forall t0 c jl, ~ In (EvCommit t0 c g jl) (trace s)) -> proj g (trace s) = [].
+Proof. exact never_committed_nothing. Qed.
+Print Assumptions C07_no_leave_without_commit_partial.
+
+(* Order.  Hypothesis (the window of the recorded finding C07-leave-before-join, excluded): the
+   committed context of generation g is not removed before thread t's PublishJoin, i.e. every
+   EvDelete c g in the trace has EvJoin t c g before it.  Then the leave follows the join. *)
+Theorem C07_leave_after_join_outside_window_partial :
+  forall sched s t c g a b,
+    no_timeout sched = true -> exec sched init = Some s ->
+    (forall a1 a2, trace s = a1 ++ EvDelete c g :: a2 -> In (EvJoin t c g) a1) ->
+    trace s = a ++ EvLeave c g :: b -> In (EvJoin t c g) a.
+Proof. exact leave_after_join. Qed.
+Print Assumptions C07_leave_after_join_outside_window_partial.
 
 (* [leave, join]: close() between commitSubscription and PublishJoin (client command path;
    no timeout involved).  Reproduced on the implementation by the driver's gated schedules. *)
